@@ -138,6 +138,45 @@ pub fn spec(id: &str) -> Option<Spec> {
             worker_timeout_s: |t| t.pick(1200, 5 * 3600),
             rayon_threads: 1,
         },
+        "C16" => Spec {
+            id: "C16",
+            level: "exploration",
+            rule: "All instruction shapes (body kind x operand form x registers x ap++; enumerated completely, see \
+                   counter shapes_enumerated) are instantiated with offsets from {-32768,-32767,-2,-1,0,1,2,32766,32767} \
+                   (+ small random) and immediates from {0,1,-1,2,2^15,2^16,2^64,2^128,P-1,P-2^16,-2^200,small,random}; \
+                   each concrete instruction is assembled+encoded, its length compared with op_size, its first word \
+                   decoded by the VM's decoder, then loaded into a fresh cairo-vm at a random pc with 16 seeded machine \
+                   states (some cells deliberately unset, pointers for double-deref / abs jumps) and stepped once; \
+                   registers and every touched cell are compared with a reference one-step semantics. Blake2s / QM31 \
+                   forms are encoded and decoded only. Non-trivial = distinct concrete instruction text with >= 1 state \
+                   stepped and compared.",
+            floor: |t| t.pick(2000, 50_000),
+            shards: |_| 16,
+            crash_is_violation: false,
+            assumptions: &[
+                "states where the VM would have to deduce an operand of a binary operation are not modelled (counted as states_unmodelled)",
+                "Blake2s/QM31 stepping is a blind spot (encode/decode only)",
+            ],
+            worker_timeout_s: |t| t.pick(900, 3 * 3600),
+            rayon_threads: 1,
+        },
+        "C18" => Spec {
+            id: "C18",
+            level: "exploration",
+            rule: "Programs: every parseable Sierra program text of the repo (.sierra files and sierra_code sections; all of them in both tiers) and the Sierra compiled from e2e/examples snippets \
+                   under two configurations (with the compiler's raw interned ids as an extra representation). Per \
+                   program: parse(display(s)) succeeds, display is a fixpoint, canonical forms equal (isomorphism); \
+                   extract(ContractClass::new(canon(s))) == canon(s) and the class JSON round-trips; VersionedProgram \
+                   JSON round trip (with and without debug info) == s; CASM text of s == CASM of canonical-id / text \
+                   round-tripped / felt round-tripped / raw-id / name-stripped variants. Non-trivial = distinct program \
+                   text that went through all serializers; `constructs_seen` lists generic-arg kinds and statement forms.",
+            floor: |t| t.pick(400, 900),
+            shards: |_| 1,
+            crash_is_violation: false,
+            assumptions: &["canonical ids (CanonicalReplacer) are what the felt serialization is specified for"],
+            worker_timeout_s: |t| t.pick(1200, 4 * 3600),
+            rayon_threads: 16,
+        },
         _ => return None,
     })
 }
@@ -156,6 +195,8 @@ pub fn worker(id: &str, ctx: &mut Ctx) {
         "C10" => crate::frontend::c10_worker(ctx),
         "C02" | "C04" | "C17" => crate::execchecks::exec_worker(ctx, id),
         "C14" | "C15" => crate::sierra_mut::sierra_worker(ctx, id),
+        "C16" => crate::casm_ref::c16_worker(ctx),
+        "C18" => crate::serde_checks::c18_worker(ctx),
         _ => panic!("no worker for {id}"),
     }
 }
@@ -167,6 +208,8 @@ pub fn replay(id: &str, case: &Value) -> Result<Option<String>, String> {
         "C10" => crate::frontend::c10_replay(case),
         "C02" | "C04" | "C17" => crate::execchecks::exec_replay(id, case),
         "C14" | "C15" => crate::sierra_mut::sierra_replay(id, case),
+        "C16" => crate::casm_ref::c16_replay(case),
+        "C18" => crate::serde_checks::c18_replay(case),
         _ => Err(format!("no replay for {id}")),
     }
 }
